@@ -31,7 +31,11 @@ def classify(iToken, lObjects):
     iCurrent = primary_unit_declaration.detect(iCurrent, lObjects)
 
     while not utils.is_next_token("end", iCurrent, lObjects):
+        iLast = iCurrent
         iCurrent = secondary_unit_declaration.detect(iCurrent, lObjects)
+        if iLast == iCurrent:
+            # Not a secondary unit declaration, the end of the units is missing
+            break
 
     iCurrent = utils.assign_next_token(token.end_keyword, iCurrent, lObjects)
     iCurrent = utils.assign_next_token_required("units", token.end_units_keyword, iCurrent, lObjects)
